@@ -1,4 +1,6 @@
 import FtdcVerif.Lemmas.Pipeline
+import FtdcVerif.Model.Layer
+import FtdcVerif.Gen.Facts
 /-!
 # C06 — Close or cancellation at any point stops every reader goroutine
 
@@ -77,3 +79,159 @@ example : let s := run (init true [.good, .good, .good, .good]) [.d, .d, .c, .c,
     s.cancelled = true ∧ s.cpc = .send ∧ (step s .c).isSome = true := by decide
 
 end Ftdc.Props.C06
+
+/-! ## the layers above the chunk iterator
+
+Every document, matrix, series and per-chunk iterator is one more worker between an upstream
+iterator and its own buffered pipe (`Model/Layer.lean`).  What the model assumes of the code is
+regenerated from the source on every run and checked here: every `select` of the reader pipeline
+has a cancel arm, no channel send stands outside a `select`, every `Close` cancels the iterator's
+own context. -/
+namespace Ftdc.Props.C06.Layers
+open Ftdc.Layer
+
+/-- regenerated: every `select` of the reader pipeline has a `<-ctx.Done()` arm -/
+theorem every_select_has_cancel_arm : Ftdc.Gen.selectFacts.all (·.2) = true := by decide
+
+/-- regenerated: no producer sends on a channel outside a `select` -/
+theorem no_bare_send : Ftdc.Gen.bareSends = [] := by decide
+
+/-- regenerated: every `Close` of the reader pipeline calls the iterator's own cancel function -/
+theorem every_close_cancels : Ftdc.Gen.closeFacts.all (·.2) = true := by decide
+
+/-- the facts are about the functions the model is a model of -/
+theorem facts_present :
+    (Ftdc.Gen.selectFacts.map (·.1)) = ["read..readDiagnostic#0", "read..readChunks#0",
+      "iterator_combined.combinedIterator.worker#0", "iterator_matrix.matrixIterator.worker#0",
+      "iterator_sample.Chunk.streamFlattenedDocuments#0", "iterator_sample.Chunk.streamDocuments#0"] ∧
+    (Ftdc.Gen.closeFacts.map (·.1)) = ["iterator_chunk.ChunkIterator.Close", "iterator_combined.combinedIterator.Close",
+      "iterator_matrix.matrixIterator.Close", "iterator_sample.sampleIterator.Close"] := by decide
+
+/-- **after Close/cancel (and once the layer below has closed, which is its own theorem) the worker
+of a layer is never blocked** -/
+theorem layer_worker_never_blocked (s : St) (hc : s.cancelled = true) (hu : s.upClosed = true)
+    (hd : s.wpc ≠ .done) : ∃ a, isWorker a = true ∧ (step s a).isSome = true := by
+  cases hw : s.wpc with
+  | done => exact absurd hw hd
+  | recv =>
+    refine ⟨.wRecv, rfl, ?_⟩
+    simp only [step, hw, ne_eq, not_true_eq_false, if_false, hu]
+    split <;> simp
+  | send => exact ⟨.wAbort, rfl, by simp [step, hw, hc]⟩
+
+/-- ... and each of its steps strictly decreases a natural-number potential: it exits after at
+most `2·buffered + 2` steps, whatever the consumer and the scheduler do -/
+theorem layer_worker_steps_decrease (s s' : St) (a : Act) (hc : s.cancelled = true) (hu : s.upClosed = true)
+    (hw : isWorker a = true) (h : step s a = some s') :
+    pot s' < pot s ∧ s'.cancelled = true ∧ s'.upClosed = true := by
+  cases a <;> simp [isWorker] at hw
+  · -- wRecv
+    simp only [step] at h
+    split at h
+    · simp at h
+    · rename_i hr
+      have hr' : s.wpc = .recv := by simpa using hr
+      split at h
+      · simp only [Option.some.injEq] at h; subst h
+        simp [pot, hr', hc, hu]; omega
+      · simp only [hu, if_true, Option.some.injEq] at h; subst h
+        simp [pot, hr', hc, hu]
+  · -- wSend
+    simp only [step] at h
+    split at h
+    · rename_i hs
+      simp only [Option.some.injEq] at h; subst h
+      simp [pot, hs.1, hc, hu]
+    · simp at h
+  · -- wAbort
+    simp only [step] at h
+    split at h
+    · rename_i hs
+      simp only [Option.some.injEq] at h; subst h
+      simp [pot, hs.1, hc, hu]
+    · simp at h
+
+/-- the other actions never increase the potential and keep the flags -/
+theorem layer_other_steps_keep (s s' : St) (a : Act) (hc : s.cancelled = true) (hu : s.upClosed = true)
+    (hw : isWorker a = false) (h : step s a = some s') :
+    pot s' ≤ pot s ∧ s'.cancelled = true ∧ s'.upClosed = true := by
+  cases a <;> simp [isWorker] at hw
+  · simp [step, hu] at h
+  · simp only [step, Option.some.injEq] at h; subst h; simp [pot, hc]
+  · simp only [step] at h
+    split at h
+    · simp only [Option.some.injEq] at h; subst h; simp [pot, hc, hu]
+    · simp at h
+  · simp only [step, Option.some.injEq] at h; subst h; simp [pot, hu]
+
+/-- invariant of every run from a fresh layer: the worker has exited only after closing its pipe,
+and the pipe never holds more than its capacity -/
+def LInv (s : St) : Prop := (s.wpc = .done → s.pipeClosed = true) ∧ s.pipeLen ≤ s.pipeCap
+
+theorem linv_step (s s' : St) (a : Act) (hi : LInv s) (h : step s a = some s') : LInv s' ∧ s'.pipeCap = s.pipeCap := by
+  obtain ⟨h1, h2⟩ := hi
+  cases a <;> simp only [step] at h
+  · split at h <;> simp at h; subst h; exact ⟨⟨h1, h2⟩, rfl⟩
+  · simp only [Option.some.injEq] at h; subst h; exact ⟨⟨h1, h2⟩, rfl⟩
+  · split at h
+    · simp at h
+    · split at h
+      · simp only [Option.some.injEq] at h; subst h; exact ⟨⟨by simp, h2⟩, rfl⟩
+      · split at h
+        · simp only [Option.some.injEq] at h; subst h; exact ⟨⟨by simp, h2⟩, rfl⟩
+        · simp at h
+  · split at h
+    · rename_i hs
+      simp only [Option.some.injEq] at h; subst h
+      exact ⟨⟨by simp, by simp; omega⟩, rfl⟩
+    · simp at h
+  · split at h
+    · simp only [Option.some.injEq] at h; subst h; exact ⟨⟨by simp, h2⟩, rfl⟩
+    · simp at h
+  · split at h
+    · simp only [Option.some.injEq] at h; subst h; exact ⟨⟨h1, by simp; omega⟩, rfl⟩
+    · simp at h
+  · simp only [Option.some.injEq] at h; subst h; exact ⟨⟨h1, h2⟩, rfl⟩
+
+theorem linv_run (sched : List Act) : ∀ (s : St), LInv s → LInv (run s sched) := by
+  induction sched with
+  | nil => intro s h; exact h
+  | cons a sched ih =>
+    intro s h
+    simp only [run, List.foldl_cons]
+    cases hs : step s a with
+    | none => simpa [run] using ih s h
+    | some s' => simpa [run] using ih s' (linv_step s s' a h hs).1
+
+/-- **`Next` after the worker has exited never blocks**: the pipe is closed, so the consumer gets
+the at most `cap` buffered items and then `false` -/
+theorem layer_next_after_exit (cap : Nat) (sched : List Act) :
+    let s := run { pipeCap := cap } sched
+    s.wpc = .done → s.pipeClosed = true ∧ s.pipeLen ≤ cap := by
+  intro s hd
+  have hinv := linv_run sched { pipeCap := cap } ⟨by simp, by simp⟩
+  have hcap : ∀ (sched : List Act) (s0 : St), (run s0 sched).pipeCap = s0.pipeCap := by
+    intro sched
+    induction sched with
+    | nil => intro s0; rfl
+    | cons a sched ih =>
+      intro s0
+      simp only [run, List.foldl_cons]
+      cases hs : step s0 a with
+      | none => simpa [run] using ih s0
+      | some s' =>
+        have := ih s'
+        simp only [run] at this
+        simp only [Option.getD_some, this]
+        cases a <;> simp only [step] at hs <;> (try split at hs) <;> (try split at hs) <;> (try split at hs) <;>
+          simp at hs <;> (try subst hs) <;> rfl
+  refine ⟨hinv.1 hd, ?_⟩
+  have := hinv.2
+  rw [hcap sched { pipeCap := cap }] at this
+  exact this
+
+/-! non-vacuity: a full pipe, the worker blocked on its send, then Close -/
+example : let s := run { pipeCap := 2 } [.upProduce, .upProduce, .upProduce, .wRecv, .wSend, .wRecv, .wSend, .wRecv, .cancel, .upClose]
+    s.wpc = .send ∧ s.pipeLen = 2 ∧ (step s .wSend).isSome = false ∧ (step s .wAbort).isSome = true := by decide
+
+end Ftdc.Props.C06.Layers
